@@ -499,6 +499,10 @@ def check_c02(an):
                 elif ev.kind == E.DROP_IN:
                     if depth <= 0:
                         out.append(V("C02", "foreign_event_in_window", "input dropped inside a timed section outside any call", [w.s, ev, w.e]))
+                elif ev.kind == E.POINT and 20 <= ev.a <= 25:
+                    # hooks 20-25 sit in the round synchronisation (barrier waits, tally reset), which belongs before the
+                    # start timestamp or after the end timestamp
+                    out.append(V("C02", "sync_in_window", "round synchronisation (hook %d: barrier wait / tally reset) inside a timed section" % ev.a, [w.s, ev, w.e]))
                 elif ev.kind == E.ALLOC_OP:
                     if depth <= 0:
                         out.append(V("C02", "alloc_in_window_outside_call", "allocator operation inside a timed section outside any call", [w.s, ev, w.e]))
@@ -519,20 +523,38 @@ def check_c02(an):
             wins = an.rounds[r]
             models = [model_tally(window_alloc_events(w)) for w in wins.values()]
             reps = [rep["alloc"].get(j * T + i) for i in range(T)]
-            # multiset matching (bipartite, small T): greedy with backtracking
-            if not _match_multiset(models, reps):
+            # matching (bipartite, small T) between windows and samples: same allocation figures and same duration
+            km, kr = round_durations(an, r, rep, j, T)
+            if not _match_multiset(models, reps, km, kr):
                 out.append(V("C02", "alloc_figures_mismatch",
-                             "round %d: reported allocation figures %s do not match the operations inside the windows %s" % (r, reps, [model_key(m) for m in models]),
+                             "round %d: reported allocation figures %s (sample durations %s) do not match the operations inside the windows %s (window durations %s)" % (r, reps, kr, [model_key(m) for m in models], km),
                              [w.s for w in wins.values()]))
             compared += len(models)
     return out, {"windows": n_windows, "alloc_ops_in_calls": n_alloc_in_calls, "samples_compared": compared}
 
 
-def _match_multiset(models, reps):
+def round_durations(an, r, rep, j, T):
+    """(durations the loop must have recorded for round r's windows, durations it reports for samples j*T..), or (None, None)
+    when the clock is not the virtual one. Used to tie an allocation record to *its* sample, not just to its round."""
+    cfg = an.cfg
+    if not cfg.tsc:
+        return None, None
+    precision = cfg.conv(cfg.q) if cfg.tuned else 0
+    exp = []
+    for w in an.rounds[r].values():
+        d = cfg.conv(w.ticks())
+        exp.append(d if d else precision)
+    got = [rep["samples"][j * T + i] if j * T + i < len(rep["samples"]) else None for i in range(T)]
+    return exp, got
+
+
+def _match_multiset(models, reps, keys_m=None, keys_r=None):
+    """Perfect matching between modelled and reported tallies; with keys, partners must also agree on the key (the sample's duration)."""
     if len(models) != len(reps):
         return False
     n = len(models)
-    adj = [[j for j in range(n) if tally_matches(models[i], reps[j])] for i in range(n)]
+    keyed = keys_m is not None and keys_r is not None and len(keys_m) == n and len(keys_r) == n
+    adj = [[j for j in range(n) if tally_matches(models[i], reps[j]) and (not keyed or keys_m[i] == keys_r[j])] for i in range(n)]
     match = [-1] * n
 
     def try_(i, seen):
@@ -880,23 +902,30 @@ def check_c05(an):
     for col, val, name in ((0, srt[0], "fastest"), (1, srt[-1], "slowest")):
         cands = [i for i in range(m) if samples[i] == val]
         got = _stats_alloc_vec(st, col)
-        if not any(all(_close(a, b) for a, b in zip(_alloc_vec(alloc.get(i), s), got)) for i in cands[:64]) and len(cands) <= 64:
+        if not any(all(_close(a, b) for a, b in zip(_alloc_vec(alloc.get(i), s), got)) for i in cands):
             out.append(V("C05", "alloc_under_" + name, "allocation figures under %s %s are not those of a sample with that time (candidates %s)" % (name, got, [(i, _alloc_vec(alloc.get(i), s)) for i in cands[:4]])))
     # median
     got = _stats_alloc_vec(st, 2)
     if len(mids) == 1:
         cands = [i for i in range(m) if samples[i] == srt[mids[0]]]
-        ok = any(all(_close(a, b) for a, b in zip(_alloc_vec(alloc.get(i), s), got)) for i in cands[:64]) or len(cands) > 64
+        ok = any(all(_close(a, b) for a, b in zip(_alloc_vec(alloc.get(i), s), got)) for i in cands)
     else:
-        ca = [i for i in range(m) if samples[i] == srt[mids[0]]][:24]
-        cb = [i for i in range(m) if samples[i] == srt[mids[1]]][:24]
-        ok = False
+        # every sample tied with a middle one is a candidate (no cap: a capped list raised a false alarm on 132 tied samples)
+        ca = [i for i in range(m) if samples[i] == srt[mids[0]]]
+        cb = [i for i in range(m) if samples[i] == srt[mids[1]]]
+        vecs = {i: _alloc_vec(alloc.get(i), s) for i in set(ca) | set(cb)}
+        # distinct vectors only: ties are usually many samples with few distinct figures
+        da = {}
         for i in ca:
-            va = _alloc_vec(alloc.get(i), s)
-            for j in cb:
-                if i == j:
+            da.setdefault(vecs[i], []).append(i)
+        db = {}
+        for j in cb:
+            db.setdefault(vecs[j], []).append(j)
+        ok = False
+        for va, ia in da.items():
+            for vb, jb in db.items():
+                if len(set(ia) | set(jb)) < 2:
                     continue
-                vb = _alloc_vec(alloc.get(j), s)
                 if all(_close((a + b) / 2, g) for a, b, g in zip(va, vb, got)):
                     ok = True
                     break
@@ -942,9 +971,14 @@ def check_c05(an):
         if len(mids) == 1:
             cands = {val(i) for i in range(m) if samples[i] == srt[mids[0]]}
         else:
-            ca = [i for i in range(m) if samples[i] == srt[mids[0]]][:48]
-            cb = [i for i in range(m) if samples[i] == srt[mids[1]]][:48]
-            cands = {(val(i) + val(j)) // 2 for i in ca for j in cb if i != j}
+            ca = [i for i in range(m) if samples[i] == srt[mids[0]]]
+            cb = [i for i in range(m) if samples[i] == srt[mids[1]]]
+            va_, vb_ = {}, {}
+            for i in ca:
+                va_.setdefault(val(i), set()).add(i)
+            for j in cb:
+                vb_.setdefault(val(j), set()).add(j)
+            cands = {(x + y) // 2 for x, sx in va_.items() for y, sy in vb_.items() if len(sx | sy) >= 2}
         if sc[2] not in cands:
             out.append(V("C05", "counter_under_median", "counter kind %d under median is %d, expected one of %s" % (kind, sc[2], sorted(cands)[:8])))
         exp_mean_c = sum(counts) // len(counts)
@@ -994,7 +1028,8 @@ def check_c05_chain(an):
         wins = an.rounds[r]
         models = [model_tally(window_alloc_events(w)) for w in wins.values()]
         reps = [rep["alloc"].get(j * T + i) for i in range(T)]
-        if not _match_multiset(models, reps):
+        km, kr = round_durations(an, r, rep, j, T)
+        if not _match_multiset(models, reps, km, kr):
             out.append(V("C05", "alloc_record_of_other_sample", "recorded round %d: allocation records %s are not those of the samples' own timed sections %s" % (
                 j, reps, [model_key(m) for m in models]), [w.s for w in wins.values()]))
             break
